@@ -13,7 +13,9 @@ RULE = ("class chains and well-formed call shapes of C01; for each, the complete
         "Exception branch (args of auto_exc classes), definition histories (decoy, sibling and warm-up classes; decorator "
         "objects, and_() validator composites and attr.ib() objects shared between fields and classes and decorated further "
         "with `@x.validator` by one of them), `@x.validator` / `@x.default` spellings, argument objects with unusual special "
-        "methods. Non-trivial = expected trace has >= 3 events or a fault is injected; "
+        "methods, multiple inheritance with a plain mixin, equal-comparing twin chains; converter CHAINS (list / pipe of 2-3 "
+        "plain and Converter members) are modelled member by member, so the single-fault enumeration also fails every member "
+        "of every chain in turn. Non-trivial = expected trace has >= 3 events or a fault is injected; "
         "distinct = distinct (class spec, call, fault, switch)")
 ASSUMPTIONS = c01.ASSUMPTIONS + [
     "callbacks are instrumented closures recording (kind, field, index, canonical arguments); a fault is a UserError raised by exactly one of them",
@@ -22,7 +24,8 @@ ASSUMPTIONS = c01.ASSUMPTIONS + [
 EXHAUSTIVE = {"quick": False, "thorough": False}
 BUDGET_S = {"quick": 45, "thorough": 480}
 LEVEL_TEXT = ("Lean theorems about the trace semantics of the modelled initializer (order, exactly-once, arguments, fault "
-              "prefix, no hooks during construction, exception args; see Properties/C02.lean); tied to /repo by differential "
+              "prefix, no hooks during construction, exception args, converter chains run member by member left to right "
+              "with each member's own arguments; see Properties/C02.lean); tied to /repo by differential "
               "correspondence with single-fault enumeration at every trace position and runs with validators disabled.")
 
 
@@ -35,7 +38,7 @@ def make_case(hspec, call, fault, enabled):
 def gen_cases(tier, rng):
     n_classes = 1500 if tier == "quick" else 40000
     for _ in range(n_classes):
-        h = ib.gen_hspec(rng)
+        h = ib.gen_hspec(rng, pipes=c01.PIPES)
         try:
             ib.build(h)
         except Exception as e:  # noqa: BLE001
